@@ -8,14 +8,15 @@ dst=/verif/seeded/$name
 [ -f "$wt/_seed/patch.diff" ] || { echo "$name: no patch.diff"; exit 2; }
 mkdir -p "$dst"
 cd "$wt" || exit 2
-git diff -- reactivex > /tmp/seed_cur_$name.diff
-if [ ! -s /tmp/seed_cur_$name.diff ]; then git apply _seed/patch.diff || { echo "$name: patch does not apply"; exit 2; }; fi
+# start from a clean tree and apply exactly the delivered patch (git stash is shared between worktrees: never use it)
+git checkout -q -- reactivex
+git apply _seed/patch.diff || { echo "$name: patch does not apply"; exit 2; }
 git diff -- reactivex > "$dst/patch.diff"
 tests=$(PYTHONPATH=$wt /venv/bin/python -m pytest -q -p no:cacheprovider --timeout=900 -x 2>&1 | tail -1)
 PYTHONPATH=$wt timeout 300 /venv/bin/python _seed/demo.py > "$dst/demo_with_change.out" 2>&1; with=$?
-git stash -q -- reactivex
+git apply -R "$dst/patch.diff"
 PYTHONPATH=$wt timeout 300 /venv/bin/python _seed/demo.py > "$dst/demo_without_change.out" 2>&1; without=$?
-git stash pop -q
+git apply "$dst/patch.diff"
 cp _seed/demo.py "$dst/demo.py"
 python3 - "$dst" "$id" "$tests" "$with" "$without" <<'EOF'
 import json, sys
